@@ -107,6 +107,9 @@ def run(ck, fx, cg, tier):
     from . import c05_vm
     c05_vm.fault_rules(ck, fx, cg, "R10.faults")
     c05_vm.fault_rows(ck, fx, cg, "R10.faults")
+    # "unknown method": the parent-chain walk must END in a failure — decided precisely by C14's dispatch rules
+    shared.presuppose(ck, fx, cg, "C14", lambda o: o["rule"] == "R14.dispatch" and ("missing method" in o["key"] or "failure" in o["key"]), "R10.faults",
+                      "detect|unknown method: the parent chain ends in a failure", floor=1)
 
 
 PURE_OPS = {"Literal", "Drop", "GetLocal"}   # cannot fault at run time: leaving them out changes nothing observable
